@@ -33,7 +33,7 @@ impl TrendStrengthIndex {
 			&& r->Ok_0.k@ == (tri(self.period as int) * (2 * self.period + 1)) as real / 3real - ((self.period + 1) * tri(self.period as int)) as real * 0.5real,
 		r is Ok ==> r->Ok_0.inverted_period@ * (self.period as real) == 1real,
 //@replace Ok(Self::Instance { ==> Ok(TrendStrengthIndexInstance {
-//@replace ReversalSignal::new(1, 2, &0.0)? ==> ReversalSignal::new3(1, 2, &R::lit(0, 1))?
+//@replace ReversalSignal::new( ==> ReversalSignal::new3(
 //@hint before let sx =
 	proof {
 		let p = period as int;
